@@ -29,6 +29,9 @@ APP_CONSUMED = {'_EbEncHandle.output_stream_buffer_resource_ptr_array': 'consume
                 '_EbEncHandle.output_recon_buffer_resource_ptr_array': 'consumer is the application (svt_av1_get_recon)'}
 
 
+POOL_RECORDS = ('EbBufferHeaderType',)
+
+
 def run(P, rep, tier):
     C = Classes(P)
     live = [f for f in P.fns if f.lib in ('Encoder', 'Common', 'Decoder') and f not in C.dead]
@@ -84,6 +87,18 @@ def run(P, rep, tier):
                 else:
                     good_d = good
                 key = '%s/%s/%s' % (lf, kind, lvl)
+                # POOLOWN: a run-time allocation into a member of an object that lives in a pool (a record with a destructor
+                # slot, or the buffer headers with their creator / destroyer pair) is still attached to that object when the
+                # session is torn down mid-stream: the release the pipeline would have done later never happens, so teardown
+                # itself must reach a release of that member
+                rname = lf.split('.', 1)[0]
+                pooled = rname in POOL_RECORDS or any(fd['n'] == 'dctor' for fd in (P.records.get(rname) or {}).get('fields', ()))
+                if not init_only and pooled and kind in ('MALLOC', 'ALIGNED') and good:
+                    in_deinit = [r for r in good if r[0] in C.deinit]
+                    rep.ob('C15.POOLOWN', key, bool(in_deinit), sl[0][0].loc(sl[0][1]),
+                           ('%s is allocated at run time in %s and also released by teardown (%s)' % (lf, sorted({s[0].name for s in sl})[:2], sorted({r[0].name for r in in_deinit})[:2])) if in_deinit else
+                           ('%s is allocated at run time in %s and released only by %s: an object of the pool that still carries it when the session is torn down (picture in flight, packet not retrieved) leaks it - no destructor / destroyer releases this member' %
+                            (lf, sorted({s[0].name for s in sl})[:2], sorted({r[0].name for r in good})[:3])))
                 if good_d:
                     rep.ob('C15.OWN', key, True, sl[0][0].loc(sl[0][1]),
                            'allocated in %s (%s); released in %s' % (sorted({s[0].name for s in sl})[:3], sl[0][4], sorted({r[0].name for r in good_d})[:3]))
@@ -102,6 +117,132 @@ def run(P, rep, tier):
                            '%s allocated in %s via %s: %s' % (lf, sorted({s[0].name for s in sl})[:3], sl[0][4], why))
     rep.exempt('C15.OWN', 'EB_MALLOC_DEC family (%d fields)' % ndecmap, 'registered in svt_dec_memory_map and released by the list walk in svt_av1_dec_deinit')
     rep.floor('C15.OWN', 250)
+    # buffer headers of different pools share one struct type; the packet payload is attached by packetization to headers of the
+    # *output stream* pool, whose destroyer is the function registered next to svt_output_buffer_header_creator
+    for alloc_fn, creator in (('malloc_p_buffer', 'svt_output_buffer_header_creator'),):
+        af = P.fn(alloc_fn)
+        dest = None
+        for g in P.fns:
+            if g.nocfg:
+                continue
+            for cev, n in g.calls('svt_system_resource_ctor'):
+                fa = [strip(a) for a in cev['e'][2]]
+                names = [a[1] for a in fa if a and a[0] == 'f']
+                if creator in names and len(names) >= 2:
+                    dest = names[names.index(creator) + 1] if names.index(creator) + 1 < len(names) else None
+        if dest is None:
+            raise AnalysisBroken('destroyer registered with %s not found' % creator)
+        d = P.fn(dest)
+        frees = [ev for ev in d.events(('call', 'st')) if ev.get('e') is not None and 'p_buffer' in pstr(ev['e']) and
+                 (ev['k'] == 'call' and callee_name(ev['e']) == 'free' or 'EB_FREE' in ' '.join(ev.get('mx') or ()))]
+        rep.ob('C15.POOLOWN', 'EbBufferHeaderType.p_buffer@output-stream-pool', bool(frees), d.loc(),
+               ('%s releases the payload %s attaches to the headers of its pool' % (dest, alloc_fn)) if frees else
+               ('%s attaches a payload (p_buffer) to the headers of the output-stream pool and only svt_av1_enc_release_out_buffer frees it; %s, the destroyer of that pool, frees the header alone: packets finished but not retrieved (or not released) when the session is torn down leak their payload' % (alloc_fn, dest)))
+    rep.floor('C15.POOLOWN', 3)
+
+    # REENTRY: an API function that may be called more than once on a handle (everything except the create / init / teardown
+    # calls) and allocates into a member reachable from the handle must release what an earlier call left there first
+    ONCE = ('svt_av1_enc_init_handle', 'svt_av1_enc_init', 'svt_av1_enc_deinit', 'svt_av1_enc_deinit_handle', 'svt_av1_dec_init_handle',
+            'svt_av1_dec_init', 'svt_av1_dec_deinit', 'svt_av1_dec_deinit_handle')
+    from engine.own import alloc_sites as _as, release_sites as _rs
+    nre = 0
+    for f in P.fns:
+        if f.nocfg or f.name in ONCE or f.name not in P.apidecls or f.lib not in ('Encoder', 'Decoder'):
+            continue
+        for ev, lf, kind, lvl, mac, t in _as(f):
+            if not lf or kind not in ('MALLOC', 'OBJECT', 'ALIGNED') or strip(t)[0] == 'v':
+                continue
+            r = root_of(strip(t))
+            if r is None or r[2] != 'l' and not r[2].startswith('p'):
+                continue
+            # the target must hang off the handle (not off a local object created in this call)
+            if r[2] == 'l' and not any(d['k'] == 'decl' and d['n'] == r[1] and d.get('e') is not None and last_field(strip(d['e'])) for d in f.events(('decl',))):
+                continue
+            nre += 1
+            def _rel_first(rv):
+                # the release runs before the allocation on every path: it dominates it, or sits before it under tests of the
+                # released pointer alone (if (p) { if (p->dctor) p->dctor(p); free(p); } -- the body of EB_DELETE / EB_FREE)
+                if f.ev_dominates(rv, ev):
+                    return True
+                ce, cr = f.ctl_chain(ev), f.ctl_chain(rv)
+                extra = [x for x in cr if x not in ce]
+                return (rv['l'] < ev['l'] and all(x in cr for x in ce) and
+                        all(c is not None and pstr(strip(t)) in pstr(strip(c)) for k, c, l in extra))
+            rel_before = [rv for rv, rlf, rkind, rlvl, rmac, rt in _rs(f) if rlf == lf and _rel_first(rv)]
+            guard = any(c is not None and pstr(strip(t)) in pstr(strip(c)) for k, c, l in f.ctl_chain(ev))
+            ok = bool(rel_before) or guard
+            rep.ob('C15.REENTRY', '%s/%s' % (f.name, lf), ok, f.loc(ev),
+                   ('%s releases %s before allocating it again' % (f.name, lf)) if ok else
+                   ('%s may be called again on the same handle and allocates %s (%s) without releasing the object an earlier call left there: every repeated call leaks one' % (f.name, lf, mac)))
+    rep.floor('C15.REENTRY', 1)
+
+    # WRAPDROP: a pool wrapper read out of a queue entry is handed on (posted, released, or kept in a queue by a helper) under a
+    # test of a property of that entry; the complementary case must hand it on too -- otherwise the object never returns to its
+    # pool (and its payload is lost) for every entry with that property.  Tests of the loop position (the last entry of a
+    # temporal unit is posted by the caller) are not properties of the entry and are not subject to this rule.
+    def _keeps_wrapper(g, idx, depth=0):
+        if g is None or g.nocfg or idx >= len(g.params):
+            return False
+        pn = g.params[idx][0]
+        for sv in g.events(('st',)):
+            e = strip(sv['e'])
+            if e[0] == 'a' and e[1] == '=' and strip(e[3])[0] == 'v' and strip(e[3])[1] == pn and strip(e[2])[0] in ('m', 'i'):
+                return True
+        return False
+
+    def _conj(c):
+        c = strip(c)
+        if c is not None and c[0] == 'b' and c[1] == '&&':
+            return _conj(c[2]) + _conj(c[3])
+        return [c]
+    HANDON = ('svt_release_object', 'svt_post_full_object')
+    nwd = 0
+    for f in P.fns:
+        if f.nocfg or f.lib != 'Encoder':
+            continue
+        wl = {}
+        for dv in f.events(('decl',)):
+            e = strip(dv.get('e')) if dv.get('e') is not None else None
+            if dv.get('t', '').replace(' ', '') == 'EbObjectWrapper*' and e is not None and e[0] == 'm':
+                r = root_of(e)
+                if r is not None and r[2] == 'l':
+                    wl[dv['n']] = r[1]
+        if not wl:
+            continue
+        cons = {}
+        for cv in f.events(('call',)):
+            n = callee_name(cv['e'])
+            for ai, a in enumerate(cv['e'][2] or ()):
+                a = strip(a)
+                if a is not None and a[0] == 'v' and a[1] in wl:
+                    if n in HANDON or any(_keeps_wrapper(g, ai) for g in P.call_targets(f, cv)):
+                        cons.setdefault(a[1], []).append(cv)
+        for w, cvs in cons.items():
+            ent = wl[w]
+            for cv in cvs:
+                c = cv.get('ctl', -1)
+                while c is not None and c >= 0:
+                    par, kind, cond, line = f.ctl[c]
+                    if kind in ('if', 'else') and cond is not None:
+                        props = [x for x in _conj(cond) if any(rr is not None and rr[1] == ent for rr in [root_of(strip(y)) for y in subexprs(x) if strip(y) is not None and strip(y)[0] == 'm'])]
+                        if props:
+                            nwd += 1
+                            other = 'else' if kind == 'if' else 'if'
+                            sib = [i for i, (p2, k2, c2, l2) in enumerate(f.ctl) if p2 == par and k2 == other and l2 == line]
+
+                            def _under(ev2, cid):
+                                x = ev2.get('ctl', -1)
+                                while x is not None and x >= 0:
+                                    if x == cid:
+                                        return True
+                                    x = f.ctl[x][0]
+                                return False
+                            ok = len(_conj(cond)) == len(props) and any(_under(o, sid) for sid in sib for o in cvs)
+                            rep.ob('C15.WRAPDROP', '%s/%s@%s' % (f.name, w, pstr(props[0])), ok, f.loc(cv),
+                                   ('%s hands %s on in both cases of %s' % (f.name, w, pstr(props[0]))) if ok else
+                                   ('%s takes the pool wrapper %s out of %s and hands it on (%s) only when %s; in the other case the wrapper is neither posted, released nor queued, so the object never returns to its pool and whatever it carries is lost' % (f.name, w, ent, callee_name(cv['e']), pstr(props[0]))))
+                    c = par
+    rep.floor('C15.WRAPDROP', 1)
 
     # ---------------- DECMAP: memory obtained through the EB_MALLOC_DEC family is registered in the decoder memory map and is
     # released by the list walk of svt_av1_dec_deinit; a raw free() of the same pointer releases it twice
